@@ -12,9 +12,10 @@ void logon() { T("logon"); setup(); L("logon " + ME); }
 mixed process_input(string s) { T("process_input"); L("pi " + ME + " " + s); return 0; }
 int do_ping(string a) { write("pong\n"); return 1; }
 void write_prompt() { T("write_prompt"); write("> "); }
-void net_dead() { T("net_dead"); L("gone " + ME); destruct(this_object()); }
+string tp() { object o = this_player(); return o ? file_name(o) : "0"; }
+void net_dead() { L("tp " + tp()); T("net_dead"); L("gone " + ME); destruct(this_object()); }
 void heart_beat() { L("uhb " + ME); }
-void terminal_type(string t) { T("telnet"); L("ttype " + ME); }
+void terminal_type(string t) { L("tp " + tp()); T("telnet"); L("ttype " + ME); }
 void telnet_suboption(string s) { T("telnet"); L("sb " + ME); }
 void cb_ok(string s) { T("input_to"); L("cb " + ME + " " + s); }
 void cb_ok2(string s) { L("cb2 " + ME + " " + s); }
